@@ -27,6 +27,11 @@ structure MSt where
   /-- ghost: is entity 0 / 1 still tracked relative to the loaded map (false after StripAllPropertiesExcept until a
   merge with an attached entity)? -/
   att : Bool × Bool := (true, true)
+  /-- are the kind clauses judged? false once the case left the domain the kind theorems are stated for: duplicate
+  loaded kinds, one kinds slice shared by both nodes (`shared`), or a foreign Kind implementation (`A!`).  The kind
+  behaviour there is still compared with the heap model by the tie; the property clauses are stated under these guards
+  (Props/C12Heap.lean proves them exact and shows what breaks without them). -/
+  kj : Bool := true
 
 def field (t : String) (name : String) : Option String :=
   if t.startsWith (name ++ "=") then some (t.drop (name.length + 1)).toString else none
@@ -97,7 +102,7 @@ def pick (p : Obs × Obs) (e : Bool) : Obs := if e then p.2 else p.1
 def entNo (e : Bool) : Nat := if e then 1 else 0
 
 /-- post-condition of the operation on the observed before/after states; `none` = satisfied -/
-def judgeOp (L : KV) (LK : List Kind) (att : Bool × Bool) (op : List String) (ret : String) (before after : Obs × Obs) : Option String :=
+def judgeOp (L : KV) (LK : List Kind) (att : Bool × Bool) (kj : Bool) (op : List String) (ret : String) (before after : Obs × Obs) : Option String :=
   let frame (site : String) (e : Bool) : Option String :=
     if pick after (!e) != pick before (!e) then some s!"{site}:other-entity-changed e={entNo (!e)}" else none
   let kindsSame (site : String) (e : Bool) : Option String :=
@@ -182,7 +187,7 @@ def judgeOp (L : KV) (LK : List Kind) (att : Bool × Bool) (op : List String) (r
                   (if cur.mod.contains k || cur.del.contains k then lookup cur.m k else lookup L k))
               if !(if attached then reproducesB L cur.m (pr.getD []) dp else partialOk) then
                 some s!"pg.NodeUpdateParameters:sent-properties-do-not-reproduce e={entNo e}"
-              else if !(kReproducesB LK cur.kinds k dk) then
+              else if kj && !(kReproducesB LK cur.kinds k dk) then
                 some s!"pg.NodeUpdateParameters:sent-kinds-do-not-reproduce e={entNo e}"
               else none
             | _, _, _, _ => some ("pg.NodeUpdateParameters:bad-output " ++ ret)
@@ -192,6 +197,13 @@ def judgeOp (L : KV) (LK : List Kind) (att : Bool × Bool) (op : List String) (r
   -- encoding/json round trip: nothing the tracking reports may change
   | ["json", e] => match entOf e with
       | some _ => if after != before then some "encoding/json:round-trip-changed-state" else none
+      | none => some "bad-op"
+  | ["hold", e] => match entOf e with
+      | some _ => if after != before then some "hold:read-changed-state" else none
+      | none => some "bad-op"
+  -- kind operation outside the guarded domain: only its effect on properties and on the other entity is judged
+  | ["kop", e] => match entOf e with
+      | some e => first [ propsSame "Node.kinds-op" e, frame "Node.kinds-op" e ]
       | none => some "bad-op"
   -- StripAllPropertiesExcept(ks): kept keys keep value and deletion, every other key is absent and untracked
   | ["strip", e, ks] => match entOf e, (if ks = "-" then some [] else (ks.splitOn ",").mapM keyOf) with
@@ -298,18 +310,39 @@ def step (st : MSt) (ts : List String) : MSt × String :=
   | _, ["skipped"] => (st, "ok")
   | _, "panic" :: _ => (st, "ok")       -- panics are reported by the flow itself
   | _, _ =>
-    match splitOnTok "|" out with
+    let segs := splitOnTok "|" out
+    -- a fourth segment `H=…` (headers a caller kept) is compared by the tie, not judged here
+    let segs := if segs.length == 4 then segs.take 3 else segs
+    -- foreign Kind implementations leave the guarded domain
+    let st := if op.any (fun t => t.contains '!') then { st with kj := false } else st
+    match segs with
     | [retToks, d0, d1] =>
       let ret := " ".intercalate retToks
       match parseObs d0, parseObs d1 with
-      | some o0, some o1 =>
+      | some o0', some o1' =>
+        let dupLoad := match op with
+          | "load" :: _ :: ks :: rest =>
+            (match parseKinds ks false with
+             | some ks => (allSome ks).eraseDups.length != (allSome ks).length
+             | none => false) || rest.getD 1 "node" == "shared"
+          | _ => false
+        let kj := match op with
+          | "load" :: _ => !dupLoad && !(op.any (fun t => t.contains '!'))   -- every case starts with its own load
+          | _ => st.kj
+        let blank (o : Obs) : Obs := if kj then o else { o with kinds := [], added := [], removed := [] }
+        let o0 := blank o0'; let o1 := blank o1'
         let after := (o0, o1)
+        let op := if kj then op else match op with
+          | ["addk", e, _] => ["kop", e]
+          | ["delk", e, _] => ["kop", e]
+          | ["merge", e, f] => ["pmerge", e, f]
+          | _ => op
         match op with
         | "load" :: m :: ks :: ctor =>
           match parseMap m, parseKinds ks false with
           | some m, some ks =>
-            let st' : MSt := { L := m.getD [], LK := allSome ks, prev := some after }
-            let want : Obs := { m := m.getD [], kinds := allSome ks }
+            let st' : MSt := { L := m.getD [], LK := if kj then allSome ks else [], prev := some after, kj := kj }
+            let want : Obs := { m := m.getD [], kinds := if kj then allSome ks else [] }
             let site := "load." ++ (ctor.headD "as")
             if o0 != want || o1 != want then (st', s!"reject {site}:constructor-state-differs (a constructor must yield the given store and an empty delta)")
             else match judgeBoth st' "load" none after with
@@ -320,8 +353,11 @@ def step (st : MSt) (ts : List String) : MSt × String :=
           match st.prev with
           | none => (st, "reject bad-op no-load")
           | some before =>
-            let st' := { st with prev := some after, att := attAfter st.att op }
-            match judgeOp st.L st.LK st.att op ret before after with
+            let before := if kj then before else ({ before.1 with kinds := [], added := [], removed := [] },
+                                                  { before.2 with kinds := [], added := [], removed := [] })
+            let st' := { st with prev := some after, att := attAfter st.att op, kj := kj,
+                                 LK := if kj then st.LK else [] }
+            match judgeOp st.L st'.LK st.att kj op ret before after with
             | some msg => (st', "reject " ++ msg)
             | none =>
               match judgeBoth st' verb (some before) after with
